@@ -98,6 +98,18 @@ def in_scope(key: str) -> bool:
     return key.startswith("BSC_") or key.startswith("MSC_")
 
 
+def _shows_names(repo, t) -> bool:
+    """The value at this position is shown through the members of an enumeration (flag names, a mode name)."""
+    for x in sym.walk(t):
+        if x.op == "enum":
+            return True
+        if x.op == "class":
+            found = repo.lookup(x.a[0])
+            if found is not None and found[0] == "class" and found[2].enum_kind:
+                return True
+    return False
+
+
 def analyse(D: decoders.Decoders, e, run: Run, facts_out=None) -> int:
     d = D.decode(e)
     mod = e.module.name
@@ -159,7 +171,7 @@ def analyse(D: decoders.Decoders, e, run: Run, facts_out=None) -> int:
                 wrong = [i for i in starts if i != p]
                 construct = f"{e.key}:pos{p}"
                 f = {"decoder": e.func_name, "class": d.cls.name, "position": p, "hole": sym.pretty(t)[:160],
-                     "atoms": fmt_atoms(atoms)}
+                     "atoms": fmt_atoms(atoms), "symbolic": _shows_names(D.repo, t)}
                 if facts_out is not None:
                     facts_out.append(f)
                 run.ob("R1", mod, scope, construct, not wrong,
